@@ -1827,8 +1827,15 @@ class AlterColumnOp(AlterTableOp):
                 kw["existing_%s" % k] = kw["modify_%s" % k]
                 kw["modify_%s" % k] = swap
 
+        column_name = self.column_name
+        if self.modify_name is not None:
+            # the reverse of a rename operates on the new name and
+            # renames the column back
+            kw["modify_name"] = self.column_name
+            column_name = self.modify_name
+
         return self.__class__(
-            self.table_name, self.column_name, schema=self.schema, **kw
+            self.table_name, column_name, schema=self.schema, **kw
         )
 
     @classmethod
